@@ -227,8 +227,10 @@ def run(ctx, rep):
         if v['rule'] in ('C04.O7', 'C02.5'):
             rep.violation('C10.4', key, v['where'], v['msg'], {'path': v['chain']})
     ncow = 0
+    from .c06 import cow_merge_fns
+    merges = set(cow_merge_fns(f))
     for b in f.body_list:
-        if not b.is_coroutine:
+        if not b.is_coroutine or short(b.path) not in merges:
             continue
         dp = Deps(P, b)
         for bi, t in b.calls():
